@@ -1,6 +1,7 @@
 package main
 
 import (
+	"path/filepath"
 	"go/token"
 	"go/types"
 	"math"
@@ -271,6 +272,70 @@ func registerMisc(e *engine) {
 	e.reg("strconv.FormatFloat", func(fr *frame, fn *ssa.Function, a []value) value {
 		fr.m.unsupported("strconv.FormatFloat")
 		return nil
+	})
+	e.reg("path/filepath.Join", func(fr *frame, fn *ssa.Function, a []value) value {
+		var parts []string
+		for _, x := range a[0].([]value) {
+			s, ok := x.(string)
+			if !ok {
+				fr.m.unsupported("symbolic filepath.Join")
+			}
+			parts = append(parts, s)
+		}
+		return filepath.Join(parts...)
+	})
+	e.reg("path/filepath.IsAbs", func(fr *frame, fn *ssa.Function, a []value) value { return filepath.IsAbs(a[0].(string)) })
+	e.reg("path/filepath.Dir", func(fr *frame, fn *ssa.Function, a []value) value { return filepath.Dir(a[0].(string)) })
+	e.reg("path/filepath.Base", func(fr *frame, fn *ssa.Function, a []value) value { return filepath.Base(a[0].(string)) })
+	// the ledger instantiates its crypto plugin from the genesis config; harnesses
+	// that need ledger-internal crypto install their stub afterwards
+	e.reg("github.com/xuperchain/xupercore/lib/crypto/client.CreateCryptoClient", func(fr *frame, fn *ssa.Function, a []value) value {
+		return tuple{iface{}, iface{}}
+	})
+	// strings.Builder: slot 1 holds the buffer ([]value)
+	sbuf := func(a value) *value { s := structOf(a); return &s[1] }
+	e.reg("(*strings.Builder).Grow", func(fr *frame, fn *ssa.Function, a []value) value { return nil })
+	e.reg("(*strings.Builder).Reset", func(fr *frame, fn *ssa.Function, a []value) value { *sbuf(a[0]) = []value(nil); return nil })
+	e.reg("(*strings.Builder).Len", func(fr *frame, fn *ssa.Function, a []value) value {
+		b, _ := (*sbuf(a[0])).([]value)
+		return len(b)
+	})
+	e.reg("(*strings.Builder).Cap", func(fr *frame, fn *ssa.Function, a []value) value {
+		b, _ := (*sbuf(a[0])).([]value)
+		return cap(b)
+	})
+	e.reg("(*strings.Builder).String", func(fr *frame, fn *ssa.Function, a []value) value {
+		b, _ := (*sbuf(a[0])).([]value)
+		return mkStr(b)
+	})
+	e.reg("(*strings.Builder).WriteString", func(fr *frame, fn *ssa.Function, a []value) value {
+		p := sbuf(a[0])
+		b, _ := (*p).([]value)
+		*p = append(b, strBytes(a[1])...)
+		return tuple{strLen(a[1]), iface{}}
+	})
+	e.reg("(*strings.Builder).Write", func(fr *frame, fn *ssa.Function, a []value) value {
+		p := sbuf(a[0])
+		b, _ := (*p).([]value)
+		*p = append(b, a[1].([]value)...)
+		return tuple{len(a[1].([]value)), iface{}}
+	})
+	e.reg("(*strings.Builder).WriteByte", func(fr *frame, fn *ssa.Function, a []value) value {
+		p := sbuf(a[0])
+		b, _ := (*p).([]value)
+		*p = append(b, a[1])
+		return iface{}
+	})
+	e.reg("(*strings.Builder).WriteRune", func(fr *frame, fn *ssa.Function, a []value) value {
+		p := sbuf(a[0])
+		b, _ := (*p).([]value)
+		r, ok := a[1].(int32)
+		if !ok {
+			fr.m.unsupported("symbolic WriteRune")
+		}
+		bs := strBytes(string(rune(r)))
+		*p = append(b, bs...)
+		return tuple{len(bs), iface{}}
 	})
 	e.reg("time.initLocal", func(fr *frame, fn *ssa.Function, a []value) value { return nil })
 	// reflect (minimal)
